@@ -145,6 +145,39 @@ func init() {
 				sendCase(cw, []rscp.Message{{Tag: rscp.BAT_REQ_DATA, DataType: rscp.Container, Value: []rscp.Message{m}}}, j == 1, g.time(), fmt.Sprintf("none-with-tag-typed-value dt=%d nested", dt))
 			}
 		}
+		// request lists that are windows of a larger slice of the caller (spare capacity holding live data), top level and as
+		// container values: the caller's data stay as they are and the frame carries exactly the window
+		{
+			all := make([]rscp.Message, 0, 8)
+			for k := 0; k < 8; k++ {
+				all = append(all, rscp.Message{Tag: rscp.Tag(0x01000010 + k), DataType: rscp.CString, Value: fmt.Sprintf("param-%d", k)})
+			}
+			snapshot := msgsString(all)
+			inner := all[0:2:8]
+			lists := [][]rscp.Message{all[0:2], all[2:4], all[4:5],
+				{{Tag: rscp.BAT_REQ_DATA, DataType: rscp.Container, Value: inner}, {Tag: rscp.WB_REQ_DATA, DataType: rscp.Container, Value: all[2:4]}}}
+			// windows that contain a container themselves (the rest of the backing array holds further requests)
+			mixed := make([]rscp.Message, 0, 8)
+			mixed = append(mixed, rscp.Message{Tag: rscp.BAT_REQ_DATA, DataType: rscp.Container, Value: []rscp.Message{{Tag: rscp.BAT_INDEX, DataType: rscp.UInt16, Value: uint16(1)}, {Tag: rscp.BAT_REQ_RSOC, DataType: rscp.None}}})
+			for k := 1; k < 6; k++ {
+				mixed = append(mixed, rscp.Message{Tag: rscp.Tag(0x01000020 + k), DataType: rscp.CString, Value: fmt.Sprintf("other-%d", k)})
+			}
+			mixedSnapshot := msgsString(mixed)
+			for k, reqs := range [][]rscp.Message{mixed[0:1], mixed[0:2], mixed[1:3]} {
+				sendCase(cw, reqs, k%2 == 0, g.time(), fmt.Sprintf("window-with-container %d", k))
+				if now := msgsString(mixed[:6]); now != mixedSnapshot {
+					cw.add("skip", "skip", "N send window-with-container", "FAIL * sending a window of a slice changed the caller's data outside the window: "+trunc(now, 200))
+					break
+				}
+			}
+			for k, reqs := range lists {
+				sendCase(cw, reqs, k%2 == 0, g.time(), fmt.Sprintf("window-of-a-larger-slice %d", k))
+				if now := msgsString(all[:8]); now != snapshot {
+					cw.add("skip", "skip", "N send window-of-a-larger-slice", "FAIL * sending a window of a slice changed the caller's data outside (or inside) the window: "+trunc(now, 160))
+					break
+				}
+			}
+		}
 		// credentials too long for the authentication request (one of them beyond a string's limit, or both together beyond
 		// the frame): the call is refused and nothing at all is written
 		for _, up := range [][2]int{{4, 65529}, {65529, 4}, {4, 70000}, {40000, 40000}, {32760, 32760}, {4, 131081}, {8, 65500}} {
